@@ -208,6 +208,16 @@ def analyse(P, fn, S, pos, summaries=None, depth=0):
                     return st - c
                 if offset_result(ev.get('rhs')):
                     return 0
+                # len = helper(s + pos, ...); ...; pos += len  - with the cursor untouched in between
+                rv = ev.get('rhs')
+                if is_var(rv):
+                    ds = fn.local_defs(rv['name'])
+                    if len(ds) == 1 and offset_result(ds[0].ev.get('rhs') or ds[0].ev.get('init')):
+                        d = ds[0]
+                        between = [t for t in fn.stores() if t.ev['k'] == 'store' and is_var(t.ev.get('lhs'), pos) and t.key != s.key
+                                   and (t.bid in fn.reach([d.bid]) and s.bid in fn.reach([t.bid])) and not (t.bid == d.bid and t.idx < d.idx) and not (t.bid == s.bid and t.idx > s.idx)]
+                        if not between:
+                            return 0
                 problems.append((s, 'the cursor %s jumps ahead by a computed amount (%s)' % (pos, sx(ev.get('rhs')))))
                 return 0
             if op == '=':
